@@ -155,6 +155,8 @@ def run_summary(case, res):
     pipe, method = case["pipe"], case["method"]
     v_bh = case["v"]
     m1 = physics.manager(method, pipe=pipe, flow="borehole", load=case["load"], flow_rate=v_bh)
+    # other designs with the other flow specification exist in the process (built, not yet run) while this one is searched
+    decoy1 = physics.manager("rectangle", pipe="single", flow="system", load="mirror", flow_rate=7.7)  # noqa: F841
     e1 = physics.find(m1)
     res["evals"] += 1
     if e1 is not None:
@@ -165,6 +167,7 @@ def run_summary(case, res):
     runs = [("per-borehole", m1, v_bh * rho / 1000.0)]
     # the system specification that describes the same flow per borehole for the field just found
     m2 = physics.manager(method, pipe=pipe, flow="system", load=case["load"], flow_rate=v_bh * n)
+    decoy2 = physics.manager("rectangle", pipe="single", flow="borehole", load="mirror", flow_rate=0.11)  # noqa: F841
     e2 = physics.find(m2)
     res["evals"] += 1
     if e2 is None:
